@@ -19,6 +19,7 @@ const (
 	VerifSiteFieldsCollected         // overlapping fields: getFieldsAndFragmentNames cache miss
 	VerifSiteLiteralCoerced          // values.go valueFromAST, per call (literal coercion)
 	VerifSiteLiteralValidated        // rules.go isValidLiteralValue, per call (literal validation)
+	VerifSitePossibleTypeScan        // schema.go IsPossibleType, per candidate scanned when the abstract type has no table entry
 	verifSites
 )
 
